@@ -111,11 +111,15 @@ class SeekableFile(io.BytesIO):
         self.app = app
         self.key = key
         self.closed_count = 0
+        self.close_raises = None
 
     def close(self):
         self.closed_count += 1
         self.app._note_close(self.key)
         io.BytesIO.close(self)
+        if self.close_raises is not None and self.closed_count == 1:
+            self.app.k.log("app_raise", "'file_close'", self.close_raises.__name__)
+            raise self.close_raises()
 
 
 class ClosableIter:
@@ -137,6 +141,7 @@ class ClosableIter:
         sc = self.app.scripts_by_key.get(self.key) or {}
         ra = sc.get("raise_at")
         if ra and ra[0] == "close":
+            self.app.k.log("app_raise", "'close'", ra[1].__name__)
             raise ra[1]()
 
 
@@ -282,6 +287,9 @@ class ScriptedApp:
             f = SeekableFile(data, self, key) if kind == "file" else UnseekableFile(data, self, key)
             if sc.get("file_offset"):
                 f.read(sc["file_offset"])  # the application hands over a file that is not at position 0
+            ra = sc.get("raise_at")
+            if ra and ra[0] == "file_close" and kind == "file":
+                f.close_raises = ra[1]
             rec["file"] = f
             rec["returned"] = True
             self._finish(rec)
